@@ -7,7 +7,7 @@ from .hist import Lifetimes, must_ok
 
 RULE = ("history = schema with int/float/string/datetime/nullable sort fields x 15-50 events with duplicate and missing keys x config "
         "(shards 1..5, zone sizes 1..4) with a scripted clock giving distinct core timestamps; ~45 queries ORDER BY f [DESC] LIMIT n OFFSET m "
-        "(n,m in {0,1,2,|R|-1,|R|,|R|+3,1000}, plus deep pages m >= 10n) with optional WHERE/FOR, per tier mem/mixed/flush/c1/restart; oracle = python sort of the "
+        "(n,m in {0,1,2,|R|-1,|R|,|R|+3,1000}, plus deep pages m >= 10n) with optional WHERE/FOR, per tier mem/mixed/flush/disk+mem/c1/restart; oracle = python sort of the "
         "engine's own unordered unlimited selection on the same state; distinct_nontrivial counts distinct (sort kind, direction, "
         "limit class, offset class, scope, tier) combinations whose selection has >=3 rows")
 
@@ -47,6 +47,16 @@ def gen_query(rng, ctxs, nrows):
         q["offset"] = rng.randint(10 * q["limit"], max(10 * q["limit"], nrows - 1))
         if rng.random() < 0.15:
             q["where"] = rng.choice(["a > 0", "a <= 7", "k < 20"])
+        return q
+    if rng.random() < 0.14:
+        # small unordered page under a selective scope: min(n, matches) rows wherever the matches live
+        q["limit"] = rng.choice([1, 2, 3, 4])
+        if rng.random() < 0.3:
+            q["offset"] = rng.choice([0, 1, 2])
+        if rng.random() < 0.75:
+            q["where"] = rng.choice(["k < 8", "k < 8", "k < 20", "a > 0", "u = 2", 's = "a"', "a <= 7"])
+        else:
+            q["for"] = rng.choice(ctxs)
         return q
     r = rng.random()
     if r < 0.8:
@@ -196,6 +206,21 @@ def history_task(task, wdir, res):
         must_ok(node.cmd("FLUSH", timeout=60), "FLUSH")
         node.syncflush()
         observe("flush", node)
+        # newer events of the same type in the memtables on top of the flushed ones (a memtable that alone could fill a page
+        # must not stand in for the segments): the reference is still the engine's own unlimited selection
+        rng2 = random.Random(task["seed"] ^ 0x77)
+        extra = []
+        for j in range(rng2.randint(4, 12)):
+            e = dict(rng2.choice(events)["payload"])
+            e["k"] = len(events) + j
+            extra.append(gen.store_cmd("ev", rng2.choice(ctxs), e))
+        witness["stores_after_flush"] = extra
+        node.meta("clock auto 1700000100000 700")
+        for c in extra:
+            must_ok(node.cmd(c), "store")
+        node.meta("clock real")
+        node.syncflush()      # auto-flushes triggered by these stores are awaited: reads during a flush are C03's subject
+        observe("disk+mem", node)
         lt.compact_all(1)
         observe("c1", node)
         node = lt.restart_clean()
